@@ -33,7 +33,7 @@ type openingSpec struct {
 }
 
 var liquidDeviations = []string{"honest", "honest", "honest", "amount+1", "amount-1", "amount-1000", "other-asset", "forged-asset", "wrong-blinding-key", "no-proofs",
-	"swapped-keys", "third-key", "other-hash", "other-csv", "wrong-vout", "duplicate-first-bad", "explicit-output", "explicit-other-asset", "unrelated-tx", "extra-outputs", "split-script-and-amount", "split-script-and-amount"}
+	"swapped-keys", "third-key", "other-hash", "other-csv", "wrong-vout", "duplicate-first-bad", "explicit-output", "explicit-other-asset", "explicit-other-asset", "explicit-other-asset", "unrelated-tx", "extra-outputs", "split-script-and-amount", "split-script-and-amount"}
 
 var btcDeviations = []string{"honest", "honest", "honest", "amount+1", "amount-1", "amount-1000", "swapped-keys", "third-key", "other-hash", "other-csv", "wrong-vout",
 	"duplicate-first-bad", "unrelated-tx", "extra-outputs", "equal-value-before", "split-script-and-amount", "split-script-and-amount"}
